@@ -31,6 +31,7 @@ import Reamber.Lemmas.Snapper
 import Reamber.Lemmas.SMTies
 import Reamber.Lemmas.SMTol
 import Reamber.Lemmas.SMChanges
+import Reamber.Lemmas.SMGridCompat
 import Mathlib.Tactic.NormNum
 import Reamber.Generated.SMTables
 import Mathlib.Tactic.Ring
@@ -896,6 +897,29 @@ theorem write_read_exact_written (sh : Shows) (hsh : ShowsOK sh) (hsp : ShowsPar
 
 example : tempoOk [(0, 120), (8, 60), (12, 240)] = true ∧
     (changesOf [(12, 240), (0, 120), (8, 60)]).map (·.snap.measure) = [0, 2, 3] := by decide +kernel
+
+/-- **`gridCompatible` from the written numbers**: when every written `#BPMS` beat is a multiple of 1/96 beat (measure
+lines, 1/16- and 1/32-beat positions — what the writer emits exactly, `round6_exact` / `round6_sixteenth`), the
+fractional beat distance of consecutive changes is `k/96`, a point of the writer's snap grid. -/
+theorem gridCompatible_of_96ths (bpms : List (Rat × Rat)) (h : ∀ p ∈ bpms, (p.1 * 96).den = 1) :
+    gridCompatible (grid defaultMaxDiv) (changesOf bpms) = true :=
+  SM.gridCompatible_changesOf bpms h
+
+/-- **`write_read_exact_grid96`**: `write_read_exact_written` with no tempo hypothesis left that is not a decidable
+condition on the written header: `tempoOk w.bpms` and every written beat a multiple of 1/96. -/
+theorem write_read_exact_grid96 (sh : Shows) (hsh : ShowsOK sh) (hsp : ShowsParse sh)
+    (h : WHeader) (charts : List WChart) (w : Written) (hw : SM.write h charts = .ok w)
+    (htempo : tempoOk w.bpms = true) (h96 : ∀ p ∈ w.bpms, (p.1 * 96).den = 1)
+    (hL : ∀ c ∈ charts, ∃ out, ChartWritten (-(1000 * w.offsetSec)) (changesOf w.bpms) c out)
+    (hstr : ∀ ta ∈ stringTags, CleanParam ((h.strs.lookup ta.2).getD []))
+    (hch : ∀ c ∈ charts, CleanParam c.chartType ∧ CleanParam c.description ∧ CleanParam c.difficulty ∧
+      '\n' ∉ c.chartType ∧ '\n' ∉ c.difficulty) :
+    ∃ d, denote (renderWritten sh w) = some d ∧ d.offsetSec = some w.offsetSec ∧ d.bpms = some w.bpms ∧
+      d.chartsWellFormed = true ∧ d.charts.length = charts.length ∧
+      ∀ (i : Nat) (hi : i < charts.length) (hd : i < d.charts.length),
+        (d.charts[i]).wellBracketed = true ∧
+        (timedNotes w.offsetSec w.bpms d.charts[i]).Perm ((charts[i]).notes.map timedOfW) :=
+  write_read_exact_written sh hsh hsp h charts w hw htempo (SM.gridCompatible_changesOf w.bpms h96) hL hstr hch
 
 /-! ### `#BPMS` entries on one beat (tempo rows at one offset) -/
 
